@@ -556,6 +556,17 @@ class Idioms3(ast.NodeTransformer):
     def visit_Call(self, node):
         self.generic_visit(node)
         fn = norm(node.func)
+        # sep.join(<generator>) -> sep.join([<list comprehension>]) (join
+        # consumes its argument completely)
+        if isinstance(node.func, ast.Attribute) and node.func.attr == "join" \
+                and len(node.args) == 1 and not node.keywords and isinstance(
+                    node.args[0], ast.GeneratorExp) and not (
+                    isinstance(node.func.value, ast.Name)
+                    and node.func.value.id in ("os", "posixpath", "ntpath")) \
+                and norm(node.func.value) not in ("os.path",):
+            g = node.args[0]
+            node.args = [ast.copy_location(ast.ListComp(
+                elt=g.elt, generators=g.generators), g)]
         # f(**{"a": x, "b": y}) -> f(a=x, b=y)
         if any(k.arg is None and isinstance(k.value, ast.Dict)
                for k in node.keywords):
@@ -1784,6 +1795,50 @@ def sink_selected_calls(fn):
     return done
 
 
+def exitstack_enter(fn):
+    """`with ExitStack() as S: a = S.enter_context(X); b = S.enter_context(Y);
+    BODY` (S used nowhere else) -> `with X as a, Y as b: BODY`"""
+    done = False
+    for w in [n for n in _walk_own(fn) if isinstance(n, ast.With)]:
+        if not (len(w.items) == 1 and isinstance(
+                w.items[0].context_expr, ast.Call) and norm(
+                w.items[0].context_expr.func) in (
+                    "contextlib.ExitStack", "ExitStack")
+                and not w.items[0].context_expr.args
+                and isinstance(w.items[0].optional_vars, ast.Name)):
+            continue
+        S = w.items[0].optional_vars.id
+        items = []
+        k = 0
+        for st in w.body:
+            v = st.value if isinstance(st, (ast.Assign, ast.Expr)) else None
+            if isinstance(v, ast.Call) and isinstance(
+                    v.func, ast.Attribute) and isinstance(
+                    v.func.value, ast.Name) and v.func.value.id == S and \
+                    v.func.attr == "enter_context" and len(v.args) == 1 \
+                    and not v.keywords and (isinstance(st, ast.Expr) or (
+                        len(st.targets) == 1 and isinstance(
+                            st.targets[0], ast.Name))):
+                items.append(ast.withitem(
+                    context_expr=v.args[0],
+                    optional_vars=st.targets[0] if isinstance(
+                        st, ast.Assign) else None))
+                k += 1
+            else:
+                break
+        if not items or k == len(w.body):
+            continue
+        uses = [n for n in ast.walk(fn) if isinstance(n, ast.Name)
+                and n.id == S]
+        if len(uses) != 1 + k:
+            continue
+        w.items = items
+        w.body = w.body[k:]
+        ast.fix_missing_locations(w)
+        done = True
+    return done
+
+
 def exitstack_rollback(fn):
     """`with contextlib.ExitStack() as S: S.callback(F, *a); BODY;
     S.pop_all()` (S used nowhere else) -> `try: BODY` + `except
@@ -2066,6 +2121,152 @@ def class_constants(tree):
             if isinstance(m, ast.FunctionDef):
                 R().visit(m)
                 done = True
+    return done
+
+
+def conditional_pipelines(fn):
+    """`L = []`, then `if c: L.append(f)` (f a function reference) any number
+    of times, then one `for x in L: BODY` -> `if c: BODY[x:=f]` in order; L is
+    not used anywhere else.  The tests must be over names BODY cannot
+    re-bind (each test is evaluated before any step runs)."""
+    done = False
+    for par in [fn] + list(_walk_own(fn)):
+        for fld in ("body", "orelse", "finalbody"):
+            blk = getattr(par, fld, None)
+            if not isinstance(blk, list):
+                continue
+            for i, st in enumerate(blk):
+                if not (isinstance(st, ast.Assign) and len(st.targets) == 1
+                        and isinstance(st.targets[0], ast.Name)
+                        and isinstance(st.value, ast.List)
+                        and all(isinstance(e, (ast.Name, ast.Attribute))
+                                for e in st.value.elts)):
+                    continue
+                L = st.targets[0].id
+                steps = [(None, e) for e in st.value.elts]
+                j = i + 1
+                while j < len(blk):
+                    s_ = blk[j]
+                    cond = None
+                    if isinstance(s_, ast.If) and not s_.orelse and len(
+                            s_.body) == 1:
+                        cond, s_ = s_.test, s_.body[0]
+                    if isinstance(s_, ast.Expr) and isinstance(
+                            s_.value, ast.Call) and isinstance(
+                            s_.value.func, ast.Attribute) and \
+                            s_.value.func.attr == "append" and isinstance(
+                            s_.value.func.value, ast.Name) and \
+                            s_.value.func.value.id == L and len(
+                            s_.value.args) == 1 and not s_.value.keywords \
+                            and isinstance(s_.value.args[0],
+                                           (ast.Name, ast.Attribute)):
+                        steps.append((cond, s_.value.args[0]))
+                        j += 1
+                        continue
+                    break
+                if j >= len(blk) or not steps or j == i + 1:
+                    continue
+                loop = blk[j]
+                if not (isinstance(loop, ast.For) and not loop.orelse
+                        and isinstance(loop.target, ast.Name)
+                        and isinstance(loop.iter, ast.Name)
+                        and loop.iter.id == L):
+                    continue
+                uses = [n for n in ast.walk(fn) if isinstance(n, ast.Name)
+                        and n.id == L]
+                if len(uses) != 2 + (j - i - 1):
+                    continue
+                x = loop.target.id
+                if any(isinstance(n, (ast.Break, ast.Continue))
+                       for n in ast.walk(loop)):
+                    continue
+                if any(isinstance(n, ast.Name) and n.id == x and not
+                       isinstance(n.ctx, ast.Load) for b in loop.body
+                       for n in ast.walk(b)):
+                    continue
+                if any(isinstance(n, ast.Name) and n.id == x
+                       for s_ in blk[j + 1:] for n in ast.walk(s_)):
+                    continue
+                bound = {n.id for b in loop.body for n in ast.walk(b)
+                         if isinstance(n, ast.Name) and isinstance(
+                             n.ctx, (ast.Store, ast.Del))}
+                tests_ok = True
+                for c, _ in steps:
+                    if c is None:
+                        continue
+                    for n in ast.walk(c):
+                        if isinstance(n, (ast.Call, ast.NamedExpr)):
+                            tests_ok = False
+                        if isinstance(n, ast.Name) and n.id in bound:
+                            tests_ok = False
+                if not tests_ok:
+                    continue
+                out = []
+                for c, f in steps:
+                    body = [clone(b) for b in loop.body]
+                    for b in body:
+                        for n in ast.walk(b):
+                            for fname, val in ast.iter_fields(n):
+                                if isinstance(val, ast.Name) and val.id == x:
+                                    setattr(n, fname, clone(f))
+                                elif isinstance(val, list):
+                                    for k, v in enumerate(val):
+                                        if isinstance(v, ast.Name) and \
+                                                v.id == x:
+                                            val[k] = clone(f)
+                    if c is None:
+                        out.extend(body)
+                    else:
+                        out.append(ast.copy_location(ast.If(
+                            test=clone(c), body=body, orelse=[]), loop))
+                blk[i:j + 1] = out
+                for o in out:
+                    ast.fix_missing_locations(o)
+                done = True
+                break
+    return done
+
+
+def split_tuple_assigns(fn):
+    """`a, b = (e1, e2)` (plain names; no later element reads an earlier
+    target) -> `a = e1; b = e2`; `a = a` is dropped."""
+    done = False
+    for par in [fn] + list(_walk_own(fn)):
+        for fld in ("body", "orelse", "finalbody"):
+            blk = getattr(par, fld, None)
+            if not isinstance(blk, list):
+                continue
+            i = 0
+            while i < len(blk):
+                st = blk[i]
+                if isinstance(st, ast.Assign) and len(st.targets) == 1 and \
+                        isinstance(st.targets[0], ast.Tuple) and isinstance(
+                        st.value, ast.Tuple) and len(st.targets[0].elts) == \
+                        len(st.value.elts) and all(isinstance(
+                            t, ast.Name) for t in st.targets[0].elts) and \
+                        not any(isinstance(v, ast.Starred)
+                                for v in st.value.elts):
+                    ts = [t.id for t in st.targets[0].elts]
+                    ok = len(set(ts)) == len(ts)
+                    for k, v in enumerate(st.value.elts):
+                        reads = {n.id for n in ast.walk(v)
+                                 if isinstance(n, ast.Name)}
+                        if reads & set(ts[:k]):
+                            ok = False
+                    if ok:
+                        out = []
+                        for t, v in zip(st.targets[0].elts, st.value.elts):
+                            if isinstance(v, ast.Name) and v.id == t.id:
+                                continue
+                            out.append(ast.copy_location(ast.Assign(
+                                targets=[t], value=v), st))
+                        if not out and len(blk) == 1:
+                            out = [ast.copy_location(ast.Pass(), st)]
+                        blk[i:i + 1] = out
+                        i += len(out)
+                        done = True
+                        continue
+                i += 1
     return done
 
 
